@@ -43,12 +43,12 @@ func mix(a, b, k int) uint64 {
 const (
 	nPred  = 9
 	nMap   = 3
-	nJoin  = 8
+	nJoin  = 10
 	nPPred = 9
 	nPMap  = 3
-	nPJoin = 7
-	nToSeq = 7
-	nFromS = 6
+	nPJoin = 8
+	nToSeq = 9
+	nFromS = 7
 )
 
 // raw material of the "derived inner sequence" families: the flat-map function returns TakeWhile / Filter / Map
@@ -176,6 +176,20 @@ func joinf(f, x int) []int {
 		return takeWhileList(rawInner(x), small)
 	case 6: // built as Filter(FromSlice(raw), small)
 		return filterList(rawInner(x), small)
+	case 8: // built as a Join of its own: Join(FromSlice(raw), y -> joinf(3, y)), whose trailing elements may join to nil
+		var out []int
+		for _, y := range rawInner(x) {
+			out = append(out, joinf(3, y)...)
+		}
+		return out
+	case 9: // built as Plus(FromSlice(joinf(2, x)), DropWhile(FromSlice(raw), small))
+		out := append([]int{}, joinf(2, x)...)
+		raw := rawInner(x)
+		i := 0
+		for i < len(raw) && small(raw[i]) {
+			i++
+		}
+		return append(out, raw[i:]...)
 	default: // built as Map(TakeWhile(FromSlice(raw), small), +1)
 		out := takeWhileList(rawInner(x), small)
 		for i := range out {
@@ -236,6 +250,12 @@ func pjoinf(f, k, v int) []kv {
 			out = append(out, p)
 		}
 		return out
+	case 7: // built as a pair.Join of its own over the inner pairs, each joined by family 2 (nil for some)
+		var out []kv
+		for _, p := range innerPairs(k + v) {
+			out = append(out, pjoinf(2, p.K, p.V)...)
+		}
+		return out
 	default: // built as pair.Filter(pairs, value < 500)
 		var out []kv
 		for _, p := range innerPairs(k + v) {
@@ -263,6 +283,18 @@ func toseqf(f, k, v int) []int {
 		return []int{int(mix(k, v, 3) % 997)}
 	case 5:
 		return takeWhileList(rawInner(k+v), small)
+	case 7: // built as seq.Join(FromSlice(raw), y -> joinf(3, y))
+		var out []int
+		for _, y := range rawInner(k + v) {
+			out = append(out, joinf(3, y)...)
+		}
+		return out
+	case 8: // built as a pair.ToSeq of its own over the inner pairs, each joined by family 3 (nil for even values)
+		var out []int
+		for _, p := range innerPairs(k + v) {
+			out = append(out, toseqf(3, p.K, p.V)...)
+		}
+		return out
 	default:
 		return filterList(rawInner(k+v), small)
 	}
@@ -287,6 +319,12 @@ func fromseqf(f, x int) []kv {
 				break
 			}
 			out = append(out, p)
+		}
+		return out
+	case 6: // built as a pair.FromSeq of its own: FromSeq(FromSlice(raw), y -> fromseqf(2, y))
+		var out []kv
+		for _, y := range rawInner(x) {
+			out = append(out, fromseqf(2, y)...)
 		}
 		return out
 	default:
@@ -483,6 +521,10 @@ func innerSeq(f, x int) seq.Seq[int] {
 		return seq.Filter(sliceSeq(rawInner(x)), small)
 	case 7:
 		return seq.Map(seq.TakeWhile(sliceSeq(rawInner(x)), small), func(v int) int { return v + 1 })
+	case 8:
+		return seq.Join(sliceSeq(rawInner(x)), func(y int) seq.Seq[int] { return sliceSeq(joinf(3, y)) })
+	case 9:
+		return seq.Plus(sliceSeq(joinf(2, x)), seq.DropWhile(sliceSeq(rawInner(x)), small))
 	}
 	return sliceSeq(joinf(f, x))
 }
@@ -596,6 +638,10 @@ func (b *buildCtx) buildS(n *node) seq.Seq[int] {
 				return seq.TakeWhile(sliceSeq(rawInner(k+v)), small)
 			case 6:
 				return seq.Filter(sliceSeq(rawInner(k+v)), small)
+			case 7:
+				return seq.Join(sliceSeq(rawInner(k+v)), func(y int) seq.Seq[int] { return sliceSeq(joinf(3, y)) })
+			case 8:
+				return pair.ToSeq(pairSeq(innerPairs(k+v)), func(k2, v2 int) seq.Seq[int] { return sliceSeq(toseqf(3, k2, v2)) })
 			}
 			return sliceSeq(toseqf(n.F, k, v))
 		})
@@ -638,6 +684,8 @@ func (b *buildCtx) buildP(n *node) pair.Seq[int, int] {
 				return pair.TakeWhile(pairSeq(innerPairs(k+v)), ksmall)
 			case 6:
 				return pair.Filter(pairSeq(innerPairs(k+v)), ksmall)
+			case 7:
+				return pair.Join(pairSeq(innerPairs(k+v)), func(k2, v2 int) pair.Seq[int, int] { return pairSeq(pjoinf(2, k2, v2)) })
 			}
 			return pairSeq(pjoinf(n.F, k, v))
 		})
@@ -649,6 +697,8 @@ func (b *buildCtx) buildP(n *node) pair.Seq[int, int] {
 				return pair.TakeWhile(pairSeq(innerPairs(x)), ksmall)
 			case 5:
 				return pair.Filter(pairSeq(innerPairs(x)), ksmall)
+			case 6:
+				return pair.FromSeq(sliceSeq(rawInner(x)), func(y int) pair.Seq[int, int] { return pairSeq(fromseqf(2, y)) })
 			}
 			return pairSeq(fromseqf(n.F, x))
 		})
@@ -1099,7 +1149,7 @@ func main() {
 	depth := 3
 	if !pairs {
 		if common.Thorough() {
-			a = alphabet{preds: []int{0, 1, 2, 3, 4, 5, 6, 7, 8}, maps: []int{0, 2}, joins: []int{0, 1, 2, 3, 4, 5, 6, 7}, leaves: 6}
+			a = alphabet{preds: []int{0, 1, 2, 3, 4, 5, 6, 7, 8}, maps: []int{0, 2}, joins: []int{0, 1, 2, 3, 4, 5, 6, 7, 8}, leaves: 6}
 		} else {
 			a = alphabet{preds: []int{0, 1, 2, 7, 8}, maps: []int{0}, joins: []int{2, 3, 4, 5, 6}, leaves: 4}
 		}
@@ -1108,7 +1158,7 @@ func main() {
 			a = alphabet{preds: []int{2, 4}, maps: []int{0}, joins: []int{2}, ppreds: []int{1, 3, 4, 7}, pmaps: []int{0}, pjoins: []int{2, 3, 4, 5}, toseqs: []int{2, 3, 5}, fromseqs: []int{1, 2, 4}, leaves: 3}
 			depth = 4
 		} else {
-			a = alphabet{preds: []int{1, 2, 7}, maps: []int{0}, joins: []int{2, 4}, ppreds: []int{0, 1, 2, 3, 7, 8}, pmaps: []int{0, 2}, pjoins: []int{0, 1, 2, 3, 4, 5, 6}, toseqs: []int{0, 1, 2, 3, 4, 5, 6}, fromseqs: []int{0, 1, 2, 3, 4, 5}, leaves: 4}
+			a = alphabet{preds: []int{1, 2, 7}, maps: []int{0}, joins: []int{2, 4}, ppreds: []int{0, 1, 2, 3, 7, 8}, pmaps: []int{0, 2}, pjoins: []int{0, 1, 2, 3, 4, 5, 6, 7}, toseqs: []int{0, 1, 2, 3, 4, 5, 6, 7, 8}, fromseqs: []int{0, 1, 2, 3, 4, 5, 6}, leaves: 4}
 			depth = 3
 		}
 	}
